@@ -1,6 +1,12 @@
 from .. import deductive
 from . import normal_ded
 from ..contracts import normal as N
+from . import C13
+
+# an answer handed to the caller is newly allocated storage (or a view of such): a caller that updates it in place, as the library's
+# own synthetic_data does, cannot change what later queries return
+FRESH = [x for x in C13.RETURNS_FRESH if x[1] in ('GraphicalModel.project', 'Factor.project', 'Factor.sum', 'Factor.logsumexp', 'Factor.transpose',
+                                                   'Factor.datavector', 'variable_elimination_logspace', 'Factor.exp', 'Factor.expand')]
 
 
 def run(tier):
@@ -8,4 +14,5 @@ def run(tier):
     rel2, q2, c2 = N.BP_ITEM      # krondot divides by exp(logZ): the logZ=True answer of belief_propagation is log Z (under L-cal)
     return deductive.verify_module('gmquery', nproc=1) + normal_ded.reports(('C02',)) + \
         [deductive.verify_function(rel, q, c, hooks=N.DataVectorHooks(), module_env={}),
-         deductive.verify_function(rel2, q2, c2, hooks=N.BPHooks(), module_env={'Z_calibrated': N.E.Num(N.z3.Real('Z_calibrated'))})]
+         deductive.verify_function(rel2, q2, c2, hooks=N.BPHooks(), module_env={'Z_calibrated': N.E.Num(N.z3.Real('Z_calibrated'))})] + \
+        C13.returns_fresh_reports(FRESH)
